@@ -22,8 +22,22 @@ function handed to map()/imap() reports the list of contents it was called with 
 observation); `rnone` lists files for which the reader returns None (collect drops such contents);
 `inner_order` (task -> order of member indices) forces the completion order of the member reads of a
 bundle inside the nested collect (process-local events: all members of a bundle are read in one process).
+
+Type of the content: every recorded argument carries its KIND -- "bare" (one file's content, a dict) or "list" (a
+list of contents): a bundle task must receive a list with one entry per member, also when the bundle holds exactly
+ONE file; a task on a single file must receive the bare content.  `own` pairs (FileInfo handed over / returned
+together with a content -> the files that content came from) are recorded for the law "every task gets the content
+of its own file".
+
+Layout "gz" (case["layout"]): the files are <root>/<yyyy>/<mm>/<dd>/data.txt.gz -- the SAME base name in every
+directory, gzip-compressed, the content names its own file ("p:<pos>").  FileSet.read() decompresses every file
+into a temporary copy before it calls the reader; the reader identifies its task from that copy, waits at its
+gate (so the forced completion orders make a later task decompress, read and finish while an earlier one is still
+inside its reader) and only THEN reads the copy for good: a decompression target shared between tasks shows up as
+a foreign content or a vanished file.
 """
 import datetime as dt
+import gzip
 import json
 import os
 import shutil
@@ -44,12 +58,17 @@ def stuck_limit():
 
 T0 = dt.datetime(2018, 1, 1)
 TEMPLATE = "{year}{month}{day}-f{id}.dat"
+TEMPLATE_GZ = "{year}/{month}/{day}/data.txt.gz"
 
 
 class ReadErr(IOError):
     def __init__(self, code):
         super().__init__(code)
         self.code = code
+
+
+class ContentErr(RuntimeError):
+    """The (decompressed) file handed to the reader does not hold the text the harness wrote."""
 
 
 class SkipCase(Exception):
@@ -130,6 +149,7 @@ class Recorder:
         self.key_of_path = {}       # (fileset name, path) -> task key (name, k)
         self.bundle_size = {}
         self.args = {}              # task key -> list of positions the function was called with
+        self.kinds = {}             # task key -> "bare" (one content) / "list" (list of contents)
         self.pools = []             # executor classes instantiated by the consumer thread (the top-level pools)
         self.member_evt = {}        # (name, pos) -> threading.Event: the read of this member has ended
         self.member_lock = threading.Lock()
@@ -160,9 +180,10 @@ class Recorder:
             self.finished.add(key)
             self.events.append(("finish", key[0], key[1]))
 
-    def note_args(self, key, got):
+    def note_args(self, key, got, kind="list"):
         with self.lock:
             self.args[key] = list(got)
+            self.kinds[key] = kind
 
     # member reads of one bundle (always inside one process: plain threading events, created on demand)
     def _mevt(self, mkey):
@@ -225,9 +246,32 @@ def _key_of_info(name, info):
 
 def reader(file_info, **kwargs):
     name = CASE["_name_of_dir"][str(Path(file_info.path).parent)]
-    key = CUR.key_of_path[(name, file_info.path)]
+    return _read_body(name, CASE["_pos_of_path"][file_info.path], None)
+
+
+def _read_named(path):
+    """The text of a file of the gz layout: "<fileset name>:<position>"."""
+    with open(path) as fh:
+        txt = fh.read()
+    try:
+        name, pos = txt.split(":")
+        return name, int(pos)
+    except Exception:   # noqa
+        raise ContentErr(f"the file handed to the reader holds {txt[:40]!r}")
+
+
+def reader_gz(file_info, **kwargs):
+    """Reader of the gz layout: `file_info.path` is the temporarily decompressed copy made by FileSet.read().  Its
+    content tells which file (and so which task) this is; the content that is RETURNED is read after the gate."""
+    name, pos = _read_named(file_info.path)
+    if name not in CASE["_path_of_pos"] or not 0 <= pos < len(CASE["_path_of_pos"][name]):
+        raise ContentErr(f"the file handed to the reader names the unknown file {name}:{pos}")
+    return _read_body(name, pos, file_info.path)
+
+
+def _read_body(name, pos, reread):
+    key = CUR.key_of_path[(name, CASE["_path_of_pos"][name][pos])]
     CUR.gate(key)
-    pos = CASE["_pos_of_path"][file_info.path]
     mpred = CASE["_member_pred"].get((name, pos), False)
     if mpred is not False:
         # a member of a bundle with a forced inner order: wait for the member that has to end before
@@ -238,15 +282,24 @@ def reader(file_info, **kwargs):
         if pos in CASE["_rfail"][name]:
             CUR.finish(key)
             raise ReadErr(2000 + pos)
+        cname, cpos = (name, pos) if reread is None else _read_named(reread)
         if CASE["_finish_in_reader"] and CUR.count("task_reads", key) >= CUR.bundle_size[key]:
             # pass-through function (collect / icollect / align): the task ends with its last read
             CUR.finish(key)
         if pos in CASE["_rnone"][name]:
             return None
-        return {"pos": pos, "name": name, "nread": nread}
+        return {"pos": cpos, "name": cname, "nread": nread}
     finally:
         if mpred is not False:
             CUR.member_done((name, pos))
+
+
+def _content_kind(content):
+    return "bare" if isinstance(content, dict) else ("list" if isinstance(content, (list, tuple)) else type(content).__name__)
+
+
+def _positions(content):
+    return [content["pos"]] if isinstance(content, dict) else [c["pos"] for c in content]
 
 
 def _task_of_content(content):
@@ -254,8 +307,8 @@ def _task_of_content(content):
     name = first["name"]
     key = CUR.key_of_path[(name, CASE["_path_of_pos"][name][first["pos"]])]
     want = [p for p in CASE["_stream"][name][key[1]] if p not in CASE["_rnone"][name]]
-    got = [content["pos"]] if isinstance(content, dict) else [c["pos"] for c in content]
-    CUR.note_args(key, got)
+    got = _positions(content)
+    CUR.note_args(key, got, _content_kind(content))
     return key, got == list(want)
 
 
@@ -280,9 +333,18 @@ def func_on_content(*args):
     args, ok0 = _strip_extra(args)
     content = args[0]
     key, ok = _task_of_content(content)
-    ok = ok and ok0
+    bundled = CASE["sets"][key[0]].get("select") in ("bundles", "bundle_n")
+    # a bundle hands the function the LIST of its members' contents (also a bundle of one file), a file its content
+    ok = ok and ok0 and _content_kind(content) == ("list" if bundled else "bare")
     if CASE["pass_info"]:
         ok = ok and len(args) == 2 and _key_of_info(key[0], args[1]) == key
+        try:
+            # the FileInfo (or bundle) handed over together with the content -> the files the content came from
+            ikey = _key_of_info(key[0], args[1])
+            if ikey is not None:
+                CUR.note_args(("own:" + ikey[0], ikey[1]), _positions(content), _content_kind(content))
+        except Exception:   # noqa
+            pass
     else:
         ok = ok and len(args) == 1
     return _func_body(key, ok)
@@ -355,12 +417,36 @@ def build_dir(root, name, labels):
     return str(d), paths
 
 
+def build_dir_gz(root, dirname, name, labels):
+    """<root>/<name>/<yyyy>/<mm>/<dd>/data.txt.gz: the same base name in every directory; the content names the file."""
+    d = Path(root) / dirname
+    paths = []
+    for pos, _ in enumerate(labels):
+        day = T0 + dt.timedelta(days=pos)
+        sub = d / f"{day:%Y}" / f"{day:%m}" / f"{day:%d}"
+        sub.mkdir(parents=True, exist_ok=True)
+        p = sub / "data.txt.gz"
+        with gzip.open(p, "wt") as fh:
+            fh.write(f"{name}:{pos}")
+        paths.append(str(p))
+    return str(d), paths
+
+
 def prepare(case, root):
     """Create the files and the lookup tables (stored under '_...' keys of the case)."""
     case["_name_of_dir"], case["_pos_of_path"], case["_path_of_pos"] = {}, {}, {}
     case["_stream"], case["_rfail"], case["_dirs"] = {}, {}, {}
+    gz = case.get("layout") == "gz"
     for name, spec in case["sets"].items():
-        d, paths = build_dir(root, f"{case['id']}_{name}", spec["labels"])
+        if gz:
+            d, paths = build_dir_gz(root, f"{case['id']}_{name}", name, spec["labels"])
+            tmp = Path(root) / f"{case['id']}_{name}_tmp"      # where FileSet.read() puts the decompressed copies
+            tmp.mkdir(parents=True, exist_ok=True)
+            case["_dirs"]["tmp:" + name] = str(tmp)
+            for p in paths:
+                case["_name_of_dir"][str(Path(p).parent)] = name
+        else:
+            d, paths = build_dir(root, f"{case['id']}_{name}", spec["labels"])
         case["_dirs"][name] = d
         case["_name_of_dir"][d] = name
         case["_path_of_pos"][name] = paths
@@ -384,6 +470,10 @@ def prepare(case, root):
 
 def make_fileset(case, name, FileSet, FileHandler):
     spec = case["sets"][name]
+    if case.get("layout") == "gz":
+        return FileSet(str(Path(case["_dirs"][name]) / TEMPLATE_GZ), handler=FileHandler(reader=reader_gz), name=name,
+                       max_threads=spec["w"], max_processes=spec["w"], worker_type=case.get("pool", "thread"),
+                       temp_dir=case["_dirs"]["tmp:" + name])
     return FileSet(str(Path(case["_dirs"][name]) / TEMPLATE), handler=FileHandler(reader=reader), name=name,
                    max_threads=spec["w"], max_processes=spec["w"], worker_type=case.get("pool", "thread"))
 
@@ -410,6 +500,13 @@ def stream_infos(case, name, fs):
         if got != stream:
             raise SkipCase(f"find({a},{b}) gave {got}, planned {stream}")
         return None, kw, by_pos
+    if sel == "bundle_n":
+        # the bundles are made by find(bundle=n) inside the call under test
+        kw = {"bundle": spec["bundle"]}
+        got = [[case["_pos_of_path"][f.path] for f in b] for b in fs.find(**kw)]
+        if got != stream:
+            raise SkipCase(f"find(bundle={spec['bundle']}) gave {got}, planned {stream}")
+        return None, kw, by_pos
     files = []
     for bundle in stream:
         if sel == "bundles":
@@ -422,15 +519,22 @@ def stream_infos(case, name, fs):
 
 
 def canon(case, name, v):
-    """A value handed to the caller -> (task index or None, canonical value)."""
+    """A value handed to the caller -> canonical value: 1000 + task index when it is the content of exactly the
+    files of that task, in the container the task calls for (a bundle: the LIST of the members' contents, also for a
+    bundle of one file; a single file: the bare content); -6 = right files in the wrong container; -9 = anything else."""
     if v is None:
         return None
-    if isinstance(v, (dict, list)):
+    if isinstance(v, (dict, list, tuple)):
         try:
             key, ok = _task_of_content(v)
         except Exception:   # noqa
             return -9
-        return 1000 + key[1] if ok and key[0] == name else -9
+        if not (ok and key[0] == name):
+            return -9
+        bundled = case["sets"][name].get("select") in ("bundles", "bundle_n")
+        if _content_kind(v) != ("list" if bundled else "bare"):
+            return -6
+        return 1000 + key[1]
     if isinstance(v, bool):
         return -8
     if isinstance(v, int):
@@ -455,7 +559,7 @@ def run_case(case, root, new_recorder=Recorder):
     from concurrent.futures import ThreadPoolExecutor, ProcessPoolExecutor
     fsmod.ThreadPoolExecutor = make_pool_class(ThreadPoolExecutor)
     fsmod.ProcessPoolExecutor = make_pool_class(ProcessPoolExecutor)
-    obs = {"out": [], "err": None, "yield_info_ok": True}
+    obs = {"out": [], "err": None, "yield_info_ok": True, "own": []}
     try:
         with warnings.catch_warnings(record=True) as wlist:
             warnings.simplefilter("always")
@@ -480,7 +584,9 @@ def run_case(case, root, new_recorder=Recorder):
         STUCK_SEEN += 1
     obs["func_calls"] = {f"{k[0]}:{k[1]}": v for k, v in dict(CUR.func_calls).items()}
     obs["read_calls"] = {f"{k[0]}:{k[1]}": v for k, v in dict(CUR.read_calls).items()}
-    obs["args"] = {f"{k[0]}:{k[1]}": v for k, v in dict(CUR.args).items()}
+    obs["args"] = {f"{k[0]}:{k[1]}": v for k, v in dict(CUR.args).items() if not k[0].startswith("own:")}
+    obs["kinds"] = {f"{k[0]}:{k[1]}": v for k, v in dict(CUR.kinds).items() if not k[0].startswith("own:")}
+    obs["own"] += [[k[1], v] for k, v in sorted(dict(CUR.args).items()) if k[0].startswith("own:")]
     obs["pools"] = list(CUR.pools)
     for k in [k for k in case if k.startswith("_")]:
         del case[k]
@@ -524,6 +630,11 @@ def _run_map_like(case, obs, FileSet, FileHandler):
                 k, v = None, item
                 obs["yield_info_ok"] = False
             cv = canon(case, name, v)
+            if k is not None and isinstance(v, (dict, list, tuple)):
+                try:
+                    obs["own"].append([k, _positions(v)])
+                except Exception:   # noqa
+                    pass
             if k is None or (cv is not None and cv >= 1000 and cv - 1000 != k):
                 obs["yield_info_ok"] = False
             if k is None:
@@ -643,8 +754,8 @@ class ManagerRecorder(Recorder):
                 self.abort.set()
                 return
 
-    def note_args(self, key, got):
-        self.m_args.append((key[0], key[1], list(got)))
+    def note_args(self, key, got, kind="list"):
+        self.m_args.append((key[0], key[1], list(got), kind))
 
     def note_stuck(self, item):
         self.m_stuck.append(item)
@@ -652,8 +763,9 @@ class ManagerRecorder(Recorder):
     def collect_back(self):
         self.events = [tuple(e) for e in list(self.m_events)]
         self.stuck = list(self.m_stuck)
-        for a, b, got in list(self.m_args):
+        for a, b, got, kind in list(self.m_args):
             self.args[(a, b)] = list(got)
+            self.kinds[(a, b)] = kind
         for which, a, b in list(self.m_calls):
             getattr(self, which)[(a, b)] += 1
 
@@ -670,7 +782,7 @@ def run_case_with_sync(case, root, new, holder):
     saved = (fsmod.ThreadPoolExecutor, fsmod.ProcessPoolExecutor)
     fsmod.ThreadPoolExecutor = make_pool_class(ThreadPoolExecutor)
     fsmod.ProcessPoolExecutor = make_pool_class(ProcessPoolExecutor)
-    obs = {"out": [], "err": None, "yield_info_ok": True}
+    obs = {"out": [], "err": None, "yield_info_ok": True, "own": []}
     try:
         with warnings.catch_warnings(record=True):
             warnings.simplefilter("always")
@@ -692,7 +804,9 @@ def run_case_with_sync(case, root, new, holder):
         STUCK_SEEN += 1
     obs["func_calls"] = {f"{k[0]}:{k[1]}": v for k, v in dict(CUR.func_calls).items()}
     obs["read_calls"] = {f"{k[0]}:{k[1]}": v for k, v in dict(CUR.read_calls).items()}
-    obs["args"] = {f"{k[0]}:{k[1]}": v for k, v in dict(CUR.args).items()}
+    obs["args"] = {f"{k[0]}:{k[1]}": v for k, v in dict(CUR.args).items() if not k[0].startswith("own:")}
+    obs["kinds"] = {f"{k[0]}:{k[1]}": v for k, v in dict(CUR.kinds).items() if not k[0].startswith("own:")}
+    obs["own"] += [[k[1], v] for k, v in sorted(dict(CUR.args).items()) if k[0].startswith("own:")]
     obs["pools"] = list(CUR.pools)
     for k in [k for k in case if k.startswith("_")]:
         del case[k]
